@@ -91,6 +91,8 @@ def _chunk_encode(rng, body, style):
             size = size.upper()
         elif k < 0.35:
             size = "0" * rng.choice([1, 3, 61 - len(size), 62 - len(size), 63 - len(size)]) + size
+        elif k < 0.39:
+            size = rng.choice(["+%s", "0x%s", " %s", "%s ", "%s_0", "-%s", "%s;a=b"]) % size
         out += size.encode() + b"\r\n" + body[pos:pos + n] + b"\r\n"
         pos += n
     last = {"ok": b"0\r\n\r\n", "noend": b"0\r\n", "trailer": b"0\r\nX: y\r\n\r\n", "lf": b"0\n\n", "none": b"",
